@@ -288,7 +288,7 @@ def check_reassembly(ctx, R, DR, MARKER, size_ok, size_desc, min_packet=8):
                fail=f"{nput} put_nowait sites in the extraction loop: a packet is delivered {nput} times")
         ctx.count("puts", nput)
     # queue identity
-    rq = ctx.fn("msmart.lan._LanProtocol._read_queue")
+    rq = ctx.fn("msmart.lan._LanProtocol._read_queue" if "msmart.lan._LanProtocol._read_queue" in prog.funcs else "msmart.lan._LanProtocol.read")
     rqs = summarize(prog, rq)
     q_attrs = set()
     for p in puts:
